@@ -1,0 +1,16 @@
+//go:build verif
+// +build verif
+
+// Contracts for package ipv4, read only by the verifier in /verif (build tag verif).
+// This file contains no code.
+
+package ipv4
+
+// Outbound packet (C06): the packet handed to the link layer carries a total-length field
+// equal to its actual length (the obligation is the precondition of LinkEndpoint.WritePacket,
+// see stack/contracts_verif.go), or the write is refused.
+//@ func (*endpoint).WritePacket props C06 C11
+//@   requires e != nil && r != nil && e.linkEP != nil
+//@   requires 0 <= hdr.usedIdx && hdr.usedIdx <= len(hdr.buf) && hdr.usedIdx >= header.IPv4MinimumSize && len(hdr.buf) <= 1 << 40 && 0 <= payload.size && payload.size <= 1 << 40
+//@   requires len(r.LocalAddress) == 4 && len(r.RemoteAddress) == 4
+//@   modifies everything()
